@@ -32,6 +32,7 @@ def check(ck):
     r03_2(ck, sa, quiet)
     r03_3(ck, sa)
     r03_4(ck, sa)
+    r03_5(ck, sa)
 
 
 def quiet_lists(sa):
@@ -400,3 +401,18 @@ def r03_4(ck, sa):
                        '%s is used unrounded although global_time_precision '
                        'is set: event times leave the grid' % name, d.stmt)
     ck.floor('R03.4', n_sites, 3, 'manufactured time values')
+
+
+def r03_5(ck, sa):
+    ck.rule('R03.5', 'no entry starts behind the clock: every front entry '
+            'is created at the current global time, and the clock is '
+            'initialised before the initial front (shared with C01 R01.6)')
+    from . import c01
+    c01.r01_6(ck, sa.rf)
+    for o in ck.obligations:
+        if o['rule'] == 'R01.6':
+            o['rule'] = 'R03.5'
+    for v in ck.violations:
+        if v.rule == 'R01.6':
+            v.rule = 'R03.5'
+    ck.rules.pop('R01.6', None)
